@@ -33,7 +33,7 @@ E = frozenset()
 FN_TRAIT_CALLS = ("core::ops::function::FnOnce::call_once", "core::ops::function::FnMut::call_mut", "core::ops::function::Fn::call")
 ENUM_IDX = {"core::option::Option": {"None": "0", "Some": "1"}, "core::result::Result": {"Ok": "0", "Err": "1"}}
 CUR_KINDS = ("lex", "tk", "tkd", "raw")     # abstract values derived from the current token: stale after a bump
-TRANSPARENT = ("fn", "closure", "kid", "ts", "kidarr", "lex", "tk", "tkd", "raw", "snap")
+TRANSPARENT = ("fn", "closure", "kid", "ts", "kidarr", "bstr", "lex", "tk", "tkd", "raw", "snap")
 
 
 class E7Error(Exception):
@@ -214,9 +214,12 @@ class Domain:
 
 
 class Analysis:
-    def __init__(self, P, dom):
+    def __init__(self, P, dom, mode="progress"):
         self.P = P
         self.dom = dom
+        # "progress": facts live only on paths that have not consumed yet (loop check).  "facts": facts about the current token
+        # are tracked on every path and merely reset at a bump (feasibility of assertion failures).
+        self.mode = mode
         self.summ = {}
         self.deps = defaultdict(set)
         self.dirty = []
@@ -286,7 +289,10 @@ class Analysis:
                 if b:
                     aggs = [s["rv"] for blk in b["blocks"] for s in blk["s"] if s["rv"].get("r") == "agg" and s["rv"].get("ak") == "adt"]
                     arrs = [s["rv"] for blk in b["blocks"] for s in blk["s"] if s["rv"].get("r") == "agg" and s["rv"].get("ak") == "array"]
-                    if len(aggs) == 1 and not aggs[0].get("o") and not arrs:
+                    bstrs = [o["k"]["bstr"] for blk in b["blocks"] for s in blk["s"] for o in s["rv"].get("o", []) if "bstr" in (o.get("k") or {})]
+                    if len(bstrs) == 1 and not aggs and not arrs:
+                        r = ("bstr", bstrs[0])
+                    elif len(aggs) == 1 and not aggs[0].get("o") and not arrs:
                         r = ("kid", f"{aggs[0]['adt']}::{aggs[0]['v']}")
                     elif len(arrs) == 1 and aggs and all(a["adt"] == self.dom.lexeme_kind_adt and not a.get("o") for a in aggs) \
                             and len(aggs) == len(arrs[0].get("o", [])):
@@ -329,6 +335,8 @@ class Analysis:
                 return ("fn", k.get("res") or k["fn"])
             if "scalar" in k and k.get("ty") == self.dom.tokenset_ty:
                 return ("ts", int(k["scalar"]))
+            if "bstr" in k:
+                return ("bstr", k["bstr"])
             if "uneval" in k:
                 return self.const_kid(k)
             return None
@@ -403,7 +411,7 @@ class Analysis:
                 new_cond = ({"0": both(a["0"], b["0"]), "1": jv(a["1"], b["1"])}, DEAD)
         elif r == "bin" and rv.get("op") in ("Ne", "Eq"):
             va = [self.op_val(ctx, st, o) for o in rv["o"]]
-            if all(v is not None and v[0] == "snap" for v in va):
+            if self.mode == "progress" and all(v is not None and v[0] == "snap" for v in va):
                 # the position of the current lexeme differs from an earlier snapshot only if something was consumed
                 moved = (None, alive(st.base()))
                 if rv["op"] == "Ne":
@@ -478,6 +486,8 @@ class Analysis:
             return ("prim", "iter_next")
         if re.match(r"core::option::\{impl#\d+\}::is_(some|none)$", name):
             return ("prim", "is_some" if name.endswith("is_some") else "is_none")
+        if k["fn"] in ("core::convert::Into::into", "core::convert::From::from") and t.get("dty") == self.dom.tokenset_ty:
+            return ("prim", "ts_from")
         if k["fn"] in ("core::cmp::PartialEq::eq", "core::cmp::PartialEq::ne"):
             return ("prim", "eq" if k["fn"].endswith("::eq") else "ne")
         if name in self.P.bodies and not k.get("virt"):
@@ -538,13 +548,23 @@ class Analysis:
         def const_int(op):
             return (op.get("k") or {}).get("int")
 
-        def test(S):
-            """`current token in S` for an exactly known S: (W if true, W if false)"""
+        def test(S, pos=0):
+            """`token at lookahead pos in S` for an exactly known S: (W if true, W if false)"""
             if st.w0 is None:
                 return (None, st.w1), (None, st.w1)
-            ex = frozenset(x for x in st.w0 if isinstance(x, int))
-            tv = None if S <= ex else st.w0 | (ALL - S)
-            fv = None if (ALL - S) <= ex else st.w0 | S
+            if pos == 0:
+                ex = frozenset(x for x in st.w0 if isinstance(x, int))
+                tv = None if S <= ex else st.w0 | (ALL - S)
+                fv = None if (ALL - S) <= ex else st.w0 | S
+            else:
+                ex = frozenset(x[1] for x in st.w0 if isinstance(x, tuple) and x[0] == pos)
+                tv = None if S <= ex else st.w0 | {(pos, i) for i in ALL - S}
+                fv = None if (ALL - S) <= ex else st.w0 | {(pos, i) for i in S}
+                # EOF is absorbing: a later token that is not EOF means the current one is not EOF either
+                if tv is not None and NE not in S:
+                    tv = tv | {NE}
+                if fv is not None and S == frozenset([NE]):
+                    fv = fv | {NE}
             return (tv, st.w1), (fv, st.w1)
 
         def add0(extra):
@@ -552,17 +572,34 @@ class Analysis:
 
         if kind == "prim":
             if data == "bump":
-                if st.w0 is not None:
-                    if NE in st.w0:
-                        st.w0 = None
-                    else:
-                        st.w0 = EOF_ONLY   # nothing consumed => the cursor was, and is, at EOF
-                    st.w1 = True
-                st.bumped(EOF_ONLY)
+                if self.mode == "facts":
+                    if st.w0 is not None:
+                        nbump = (t["f"].get("k") or {}).get("ga", [])[-1:] if data == "bump" else None
+                        one = (t["f"]["k"].get("res") or "").endswith("::advance") or nbump == ["1"]
+                        if one:
+                            # the lookahead shifts by one lexeme
+                            st.w0 = frozenset([x[1] for x in st.w0 if isinstance(x, tuple) and x[0] == 1] +
+                                              [(x[0] - 1, x[1]) for x in st.w0 if isinstance(x, tuple) and isinstance(x[0], int) and x[0] >= 2])
+                        else:
+                            st.w0 = E
+                    st.bumped(E)
+                else:
+                    if st.w0 is not None:
+                        if NE in st.w0:
+                            st.w0 = None
+                        else:
+                            st.w0 = EOF_ONLY   # nothing consumed => the cursor was, and is, at EOF
+                        st.w1 = True
+                    st.bumped(EOF_ONLY)
             elif data == "at_eof":
                 tv, fv = test(frozenset([NE]))
                 new_cond = ({"1": tv, "0": fv}, DEAD)
             elif data == "matches0":
+                if const_int(a[1]) in ("1", "2", "3"):
+                    S = self.dom.comparable_set(self.op_val(ctx, st, a[2]))
+                    if S is not None:
+                        tv, fv = test(S, int(const_int(a[1])))
+                        new_cond = ({"1": tv, "0": fv}, DEAD)
                 if const_int(a[1]) == "0":
                     v = self.op_val(ctx, st, a[2])
                     S = self.dom.comparable_set(v)
@@ -588,6 +625,21 @@ class Analysis:
                     for i in va[0][1]:
                         bits |= 1 << i
                     new_val = ("ts", bits)
+            elif data == "ts_from":
+                v0 = self.op_val(ctx, st, a[0])
+                S = self.dom.comparable_set(v0) if (v0 is not None and v0[0] == "kid" and v0[1].startswith(self.dom.lexeme_kind_adt + "::")) else None
+                if S is not None:
+                    bits = 0
+                    for i in S:
+                        bits |= 1 << i
+                    new_val = ("ts", bits)
+            elif data == "ts_contains":
+                va = [self.op_val(ctx, st, o) for o in a[:2]]
+                S = self.dom.comparable_set(va[0]) if va[0] is not None and va[0][0] == "ts" else None
+                K = self.dom.comparable_set(va[1]) if va[1] is not None and va[1][0] == "kid" else None
+                if S is not None and K is not None and len(K) == 1:
+                    yes = next(iter(K)) in S
+                    new_cond = ({"1": st.base() if yes else DEAD, "0": DEAD if yes else st.base()}, DEAD)
             elif data == "nth":
                 ci = const_int(a[1])
                 if ci is not None:
@@ -625,13 +677,8 @@ class Analysis:
                 kd = next((v for v in va if v is not None and v[0] == "kid"), None)
                 S = self.dom.comparable_set(kd) if kd is not None else None
                 if tk is not None and S is not None:
-                    if tk[1] == 0:
-                        eqv, neqv = test(S)
-                    elif S == frozenset([NE]):
-                        # EOF is absorbing: a later token that is not EOF means the current one is not EOF either
-                        eqv, neqv = st.base(), add0({NE})
-                    elif NE not in S:
-                        eqv, neqv = add0({NE}), st.base()
+                    if tk[1] <= 3:
+                        eqv, neqv = test(S, tk[1])
                 raw = next((v for v in va if v is not None and v[0] == "raw"), None)
                 if raw is not None and raw[1] == 0:
                     for o in a[:2]:
@@ -642,6 +689,14 @@ class Analysis:
                         if m and int(m.group(1)) >= 1:
                             # the text of the current token equals a non-empty literal: it is not the (empty) EOF token
                             eqv, neqv = add0({NE}), st.base()
+                    lit = next((v for v in va if v is not None and v[0] == "bstr"), None)
+                    if lit is not None and lit[1] and st.w0 is not None:
+                        known = [x[1] for x in st.w0 if isinstance(x, tuple) and x[0] == "raw0"]
+                        if known:
+                            eqv = add0({NE}) if lit[1] in known else (None, st.w1)
+                            neqv = (None, st.w1) if lit[1] in known else st.base()
+                        else:
+                            eqv, neqv = add0({NE, ("raw0", lit[1])}), st.base()
                 if eqv is not None:
                     new_cond = ({"1": eqv, "0": neqv}, DEAD) if data == "eq" else ({"0": eqv, "1": neqv}, DEAD)
             else:
@@ -663,7 +718,7 @@ class Analysis:
             if not live:
                 return None
             if s["bump"]:
-                st.bumped(EOF_ONLY)
+                st.bumped(EOF_ONLY if self.mode == "progress" else E)
             nb = live[0]
             for v in live[1:]:
                 nb = jv(nb, v)
@@ -723,13 +778,17 @@ class Analysis:
                     if s2.w0 is not None:
                         if v[1] == 0:
                             s2.w0 = None if S <= ex else s2.w0 | (ALL - S)
-                        elif NE not in S:
-                            s2.w0 = s2.w0 | {NE}
+                        elif v[1] <= 3:
+                            exk = frozenset(x[1] for x in st.w0 if isinstance(x, tuple) and x[0] == v[1])
+                            s2.w0 = None if S <= exk else s2.w0 | {(v[1], i) for i in ALL - S} | ({NE} if NE not in S else set())
                     if alive(s2.base()):
                         outl.append((tg, s2))
                 s2 = st.copy()
                 if s2.w0 is not None and v[1] == 0:
                     s2.w0 = None if (ALL - listed) <= ex else s2.w0 | listed
+                elif s2.w0 is not None and v[1] <= 3:
+                    exk = frozenset(x[1] for x in st.w0 if isinstance(x, tuple) and x[0] == v[1])
+                    s2.w0 = None if (ALL - listed) <= exk else s2.w0 | {(v[1], i) for i in listed}
                 if alive(s2.base()):
                     outl.append((tos[-1], s2))
                 return outl
@@ -1143,4 +1202,189 @@ def rule_g1(P, tables):
              "g1_primitives": len(A.dom.prims), "g1_token_kinds": A.dom.nk, "g1_exceptions_used": len(used)}
     for (fn, h), e in sorted(agg.items())[:6]:
         samples.append({"loop": f"{norm_fn(fn)}#loop{names[(fn, h)]}", "line": e["line"], "contexts": e["ctxs"][:3]})
+    return findings, obl, samples, stats
+
+
+# ------------------------------------------------------------------------------------------------ rule G2
+PANIC_CALL = re.compile(r"^core::panicking::|::unwrap_failed$|::expect_failed$|^core::option::\{impl#\d+\}::(unwrap|expect)$|"
+                        r"^core::result::\{impl#\d+\}::(unwrap|expect|unwrap_err|expect_err)$|^core::slice::index::|^core::str::traits::\{impl#\d+\}::index|"
+                        r"^alloc::vec::\{impl#\d+\}::index|^core::array::\{impl#\d+\}::index|^core::str::slice_error|^core::ops::index::Index(Mut)?::index")
+
+
+def panic_kind(P, body, blk):
+    """classify a block's terminator as a potential panic: returns kind string or None"""
+    t = blk["t"]
+    if t["t"] == "assert":
+        return "assert:" + str(t.get("ak", "?")).split("(")[0]
+    if t["t"] == "call":
+        k = t["f"].get("k") or {}
+        nm = k.get("res") or k.get("fn") or ""
+        if PANIC_CALL.search(nm) or PANIC_CALL.search(k.get("fn") or ""):
+            short = nm.rsplit("::", 1)[-1]
+            if nm.startswith("core::panicking::"):
+                return "panic:" + short
+            if short in ("unwrap", "expect", "unwrap_err", "expect_err"):
+                return "unwrap"
+            return "index"
+    return None
+
+
+def const_bounds_ok(body, blk):
+    """BoundsCheck with a constant index below a constant length"""
+    t = blk["t"]
+    if t.get("ak") != "BoundsCheck":
+        return False
+    ops = t.get("o", [])
+    if len(ops) != 2:
+        return False
+    ln = (ops[0].get("k") or {}).get("int")
+    idx = (ops[1].get("k") or {}).get("int")
+    if idx is None:
+        l = operand_local(ops[1])
+        for b2 in body["blocks"]:
+            for st in b2["s"]:
+                if st["d"] == [l] and st["rv"].get("r") == "use":
+                    idx = (st["rv"]["o"][0].get("k") or {}).get("int")
+    return ln is not None and idx is not None and int(idx) < int(ln)
+
+
+def check_lookahead_const(P, spec):
+    """every call of Parser::{nth, nth_range, nth_raw, matches} passes a constant lookahead below the buffer size, or forwards the
+    caller's own lookahead parameter from another function of that family"""
+    fam = {}
+    for k, b in P.bodies.items():
+        if (b.get("impl_self") or "").split("<")[0] == spec["type_marker"] and k.rsplit("::", 1)[1] in ("nth", "nth_range", "nth_raw", "matches"):
+            fam[k] = b
+    if len(fam) != 4:
+        return False, f"lookahead family not found: {sorted(fam)}", 0
+    limit = spec.get("lookahead", 4)
+    n = 0
+    for key, body in P.bodies.items():
+        for blk in body["blocks"]:
+            t = blk["t"]
+            if t["t"] != "call" or blk["cl"]:
+                continue
+            k = t["f"].get("k") or {}
+            if (k.get("res") or k.get("fn")) not in fam:
+                continue
+            n += 1
+            a1 = t["a"][1]
+            ci = (a1.get("k") or {}).get("int")
+            if ci is not None:
+                if int(ci) >= limit:
+                    return False, f"{key} asks for lookahead {ci}", n
+                continue
+            l = operand_local(a1)
+            ok = False
+            if key in fam and l is not None:
+                # a copy of the caller's own `n` parameter (local 2)
+                src = l
+                for b2 in body["blocks"]:
+                    for st in b2["s"]:
+                        if st["d"] == [l] and st["rv"].get("r") == "use":
+                            src = operand_local(st["rv"]["o"][0])
+                ok = src == 2
+            if not ok:
+                return False, f"{key} calls {k.get('res')} with a computed lookahead", n
+    return True, "ok", n
+
+
+def rule_g2(P, tables):
+    """panic-freedom of the parser: every assertion / unwrap / index / arithmetic check in the parser modules is either infeasible
+    given what is known about the token stream at that point, or listed (function, kind, count) in the audited table"""
+    from common import norm_fn
+    spec = tables.get("e7_tables", {}).get("parser")
+    dom = Domain(P, spec)
+    A = Analysis(P, dom, mode="facts")
+    A.solve(spec["roots"])
+    live = A.live_contexts()
+    by_fn = defaultdict(list)
+    for c in live:
+        by_fn[c[0]].append(c)
+    scope_prefix = tuple(spec.get("panic_scope", []))
+    # functions in scope: analysed ones plus same-module helpers reachable from them
+    roots = [k for k in by_fn if k.startswith(scope_prefix)]
+    reach = set()
+    stack = list(roots)
+    edges = P.edges()
+    while stack:
+        k = stack.pop()
+        if k in reach:
+            continue
+        reach.add(k)
+        for tg in edges.get(k, ()):
+            if tg in P.bodies and tg.startswith(scope_prefix) and tg not in reach:
+                stack.append(tg)
+    scope = sorted(k for k in set(reach) | set(roots) if k in P.bodies and k.startswith(scope_prefix) and "#promoted" not in k)
+    audited = {(x["fn"], x["kind"]): x for x in spec.get("panic_sites_audited", [])}
+    findings, obl, samples = [], [], []
+    n_sites = n_infeasible = n_const = 0
+    remaining = defaultdict(list)
+    for key in scope:
+        body = P.bodies[key]
+        if body.get("dk") not in ("Fn", "AssocFn", "Closure"):
+            continue
+        ctxs = by_fn.get(key, [])
+        for bi, blk in enumerate(body["blocks"]):
+            if blk["cl"]:
+                continue
+            kind = panic_kind(P, body, blk)
+            if not kind:
+                continue
+            if blk["t"].get("x"):   # expansion of a format/assert macro internals is still a panic site: keep
+                pass
+            n_sites += 1
+            if kind.startswith("assert:") and const_bounds_ok(body, blk):
+                n_const += 1
+                continue
+            if ctxs:
+                feasible = False
+                for c in ctxs:
+                    ins = A.in_states.get(c)
+                    if ins is None or ins[bi] is None or not alive(ins[bi].base()):
+                        continue
+                    if kind == "unwrap":
+                        # receiver known to be Some/Ok on every path?
+                        st = ins[bi].copy()
+                        for s in blk["s"]:
+                            A.transfer_stmt(c, st, s)
+                        a0 = operand_local(blk["t"]["a"][0]) if blk["t"]["a"] else None
+                        if a0 is not None and a0 in st.cond:
+                            bad_o = "0" if "option" in (blk["t"]["f"]["k"].get("res") or "") else "1"
+                            if not alive(st.lookup(a0, bad_o)):
+                                continue
+                    feasible = True
+                    break
+                if not feasible:
+                    n_infeasible += 1
+                    continue
+            remaining[(norm_fn(key), kind)].append((key, blk["t"]["l"]))
+    for (fn, kind), sites in sorted(remaining.items()):
+        a = audited.get((fn, kind))
+        key0, line0 = sites[0]
+        if a is not None and len(sites) <= a["count"] and a.get("witness") == "lookahead-const":
+            wok, why, ncalls = check_lookahead_const(P, spec)
+            if not wok:
+                a["_used"] = True
+                obl.append({"rule": "G2", "inst": f"{fn}: {kind}: lookahead argument is a small constant at every call site", "ok": False})
+                findings.append({"rule": "G2", "key": f"G2|lookahead|{fn}|{kind}", "msg": f"the lookahead assertion in {fn} can fail: {why}",
+                                 "loc": P.site_loc(key0, line0), "detail": {}})
+                continue
+        if a is not None and len(sites) <= a["count"]:
+            obl.append({"rule": "G2", "inst": f"{fn}: {len(sites)} {kind} site(s) audited: {a['reason'][:100]}", "ok": True})
+            a["_used"] = True
+            continue
+        extra = f" ({len(sites)} sites, {a['count']} audited)" if a is not None else ""
+        obl.append({"rule": "G2", "inst": f"{fn}: {kind} site(s) can be reached", "ok": False})
+        findings.append({"rule": "G2", "key": f"G2|{fn}|{kind}",
+                         "msg": f"{key0} has a {kind} panic site that the token-stream facts do not rule out and that is not audited{extra}: "
+                                f"some input text may make the parser panic here (lines {sorted({l for _, l in sites})})",
+                         "loc": P.site_loc(key0, line0), "detail": {"lines": sorted({l for _, l in sites})}})
+    for (fn, kind), a in audited.items():
+        if not a.get("_used"):
+            findings.append({"rule": "G2", "key": f"G2|stale-audit|{fn}|{kind}", "msg": f"audited panic site entry ({fn}, {kind}) matches nothing any more; remove it",
+                             "loc": "tables/e7_tables.json", "detail": {}})
+    obl.append({"rule": "G2", "inst": f"{n_infeasible} assertion/unwrap sites are unreachable given the token facts at that point; {n_const} constant-index bounds checks", "ok": True})
+    stats = {"g2_functions": len(scope), "g2_panic_sites": n_sites, "g2_infeasible": n_infeasible, "g2_const_bounds": n_const,
+             "g2_audited_groups": sum(1 for a in audited.values() if a.get("_used")), "g2_contexts": len(live)}
     return findings, obl, samples, stats
